@@ -14,6 +14,15 @@ BUILT={
  "C02":("bounded-exhaustive enumeration; refusals decided by exhaustive nondeterministic witness search of the reference Script machine",
         "Same enumeration as C01. Every refusal (malleable mode: all; non-malleable: sane descriptors with all preimages) is decided by depth-first exploration of ALL witnesses over the caller's alphabet on the reference Script machine (states/transitions reported); a found witness is re-validated concretely before the library is accused. H1: every node typed dissatisfiable must offer a dissatisfaction from public data.",
         "3 C02"),
+ "C03":("bounded-exhaustive enumeration; all adversarial witnesses explored on the reference Script machine",
+        "For every sane descriptor up to the node bound and every world in which the non-malleable satisfier succeeds, ALL witnesses over the third-party alphabet are explored depth-first on every script of the output (every tap leaf) under standardness flags; the solution set must be exactly the original. A positive control on non-sane scripts shows the search does find alternative witnesses.",
+        "3 C03"),
+ "C07":("bounded-exhaustive enumeration; policy truth vs witness existence by exhaustive witness search",
+        "For every liftable descriptor up to the node bound (all wrappings, duplicate keys, 2/3-leaf tap trees) and every world, the reference evaluator's truth value of lift(d) is compared in both directions with the existence of a witness found by exhaustive exploration of the reference Script machine over the caller's alphabet.",
+        "3 C07"),
+ "C13":("bounded-exhaustive enumeration of spends and all single (thorough: pair) mutations; interpreter vs reference Script machine",
+        "Every library satisfaction of every sane descriptor up to the node bound in every world, every single-element mutation of its witness / scriptSig (thorough: all pairs), and satisfactions fabricated with ignored time locks are given to Interpreter::iter and to the reference Script machine (consensus flags): interpreter-accept implies machine-accept, reported constraints equal the machine's trace and satisfy the lifted policy, and the library's own satisfactions are accepted.",
+        "3 C13"),
  "C09":("bounded-exhaustive enumeration; measured execution traces vs static figures",
         "Same enumeration as C01; every satisfaction the library returns (all asset subsets, both modes, both production paths) is measured on the real data and on the reference machine's trace and compared with script_size, pk_cost, max_satisfaction_*, sat_data, max_weight_to_satisfy and the plan's announced sizes.",
         "3 C09"),
